@@ -169,6 +169,58 @@ impl<'a> Walk<'a> {
                 }
                 return;
             }
+            // the skipping calls judge end tags with the same stack and the same switches: from every Start,
+            // on clones, read_to_end and read_text must succeed exactly when reading event by event reaches
+            // the closing tag without an error, and otherwise return that first error
+            if let Ev::Start(c, n) = &exp {
+                let name = c[..*n].to_vec();
+                let mut mm = m.clone();
+                let mut depth = 0usize;
+                let want: Result<(), Ev> = loop {
+                    let (ev, _, _) = expected_next(&mut mm, self.toks, self.doc, cfg);
+                    match ev {
+                        Ev::Start(c2, n2) if c2[..n2] == name[..] => depth += 1,
+                        Ev::End(n2) if n2 == name => {
+                            if depth == 0 {
+                                break Ok(());
+                            }
+                            depth -= 1;
+                        }
+                        Ev::Err(e) => break Err(Ev::Err(e)),
+                        Ev::Eof => break Err(Ev::Err(E::MissingEndTag(String::from_utf8_lossy(&name).into_owned()))),
+                        _ => {}
+                    }
+                };
+                for text in [false, true] {
+                    let mut cl = r.clone();
+                    let got = guarded_mut(|| {
+                        let q = quick_xml::name::QName(&name);
+                        let res = if text { cl.read_text(q).map(|_| ()) } else { cl.read_to_end(q).map(|_| ()) };
+                        match res {
+                            Ok(()) => Ok(()),
+                            Err(e) => Err(Ev::from_result(&Err::<quick_xml::events::Event, _>(e))),
+                        }
+                    });
+                    self.acc.transitions += 1;
+                    let got = match got {
+                        Ok(x) => x,
+                        Err(p) => Err(Ev::Err(E::Panic(p))),
+                    };
+                    if got != want {
+                        self.violated = true;
+                        let hist = self.history.join(", ");
+                        self.acc.violation(
+                            self.order,
+                            format!(
+                                "document {:?}, initial cfg [{}], history [{}, read]: {} of the element just opened returned {:?}, reading event by event gives {:?}",
+                                head(self.bytes), cfg_show(self.init_cfg), hist, if text { "read_text" } else { "read_to_end" }, got.as_ref().map_err(|e| head(e.show().as_bytes())), want.as_ref().map_err(|e| head(e.show().as_bytes()))
+                            ),
+                            json!({"name_len": self.toks[0].len() - 2, "tokens": self.doc, "init_cfg": self.init_cfg, "history": self.history, "skip": true}),
+                        );
+                        return;
+                    }
+                }
+            }
             self.history.push("read".into());
             self.go(&r, &m, cfg, flips, saw_err || is_err, deep_pop || popped_deep);
             self.history.pop();
@@ -205,7 +257,8 @@ pub fn run(ctx: &Ctx) {
          non-empty set of switches, at any event index) is walked over clones of the real reader; every read result (event / \
          MismatchedEndTag{expected,found} / UnmatchedEndTag, buffer position, error position) must equal the stack model's \
          (Start pushes; expanded Empty pushes and its synthetic End pops; End pops always; comparison and trimming use the \
-         switch values at that call). evaluations = (document, initial setting) pairs; traces = complete histories; \
+         switch values at that call). From every Start event, on clones, read_to_end and read_text of the element just opened must succeed exactly when \
+         the model reaches its end tag without an error and otherwise return the model's first error. evaluations = (document, initial setting) pairs; traces = complete histories; \
          transitions = read_event calls compared. non-trivial history = contains a flip and an error, or a pop at depth >= 2. \
          states = distinct (model stack, configuration) pairs reached",
     );
